@@ -171,6 +171,9 @@ def judge(plan, segments, queries, fresh):
     st["clock_backward"] += seg["clock"]["backward_jumps"]
     for f in seg["faults_fired"]:
       st["faults_fired"][f[0]] = st["faults_fired"].get(f[0], 0) + 1
+    fe = seg.get("log_counts", {}).get("FORMAT_ERROR", 0)
+    if fe:
+      st["probes"]["log_message_format_errors_swallowed_by_logging"] = fe
     if seg.get("alloc_fired"):
       st["faults_fired"]["alloc_fail"] = \
           st["faults_fired"].get("alloc_fail", 0) + seg["alloc_fired"]
